@@ -131,6 +131,80 @@ pub fn run(input: &mut dyn BufRead, out: &mut dyn Write, _args: &[String]) -> R 
                 let res: Vec<Value> = arr(&v["frames"]).iter().map(|f| packet(&blob(f), &mut flows, &procs)).collect();
                 json!({"id": id, "out": res})
             }
+            "match_w" => {
+                // messages parsed by the crate, looked up through the crate's SignatureMatcher wrapper in the bundled database; next to the
+                // wrapper's answer, the distance of every entry of the table to the observation that is REPORTED (C02: the answer must be
+                // the one a full scan of the table selects for that observation)
+                let db = DEFAULT_DB.get_or_init(|| huginn_net_db::Database::load_default().expect("bundled database"));
+                let matcher = huginn_net_http::SignatureMatcher::new(db);
+                let p = HttpProcessors::new();
+                let is_req = v["kind"].as_str().unwrap() == "req";
+                let res: Vec<Value> = arr(&v["datas"])
+                    .iter()
+                    .map(|d| {
+                        let b = blob(d);
+                        match guarded(|| {
+                            use huginn_net_db::db_matching_trait::MatchQuality;
+                            if is_req {
+                                p.parse_request(&b).map(|r| {
+                                    let mut o = crate::m_db::match_all_with(&db.http_request, &r.matching, huginn_net_db::http::HttpMatchQuality::distance_to_score, matcher.matching_by_http_request(&r));
+                                    o["obs"] = json!({"ver": hver_to(&r.matching.version), "horder": r.matching.horder.iter().map(header_to).collect::<Vec<_>>(), "habsent": r.matching.habsent.iter().map(header_to).collect::<Vec<_>>(), "sw": r.matching.expsw});
+                                    o
+                                })
+                            } else {
+                                p.parse_response(&b).map(|r| {
+                                    let mut o = crate::m_db::match_all_with(&db.http_response, &r.matching, huginn_net_db::http::HttpMatchQuality::distance_to_score, matcher.matching_by_http_response(&r));
+                                    o["obs"] = json!({"ver": hver_to(&r.matching.version), "horder": r.matching.horder.iter().map(header_to).collect::<Vec<_>>(), "habsent": r.matching.habsent.iter().map(header_to).collect::<Vec<_>>(), "sw": r.matching.expsw});
+                                    o
+                                })
+                            }
+                        }) {
+                            Ok(Some(x)) => json!({"r": "some", "v": x}),
+                            Ok(None) => json!({"r": "none"}),
+                            Err(e) => json!({"r": "panic", "e": e}),
+                        }
+                    })
+                    .collect();
+                json!({"id": id, "out": res})
+            }
+            "conns" => {
+                // whole connections through the OUTPUT layer of the crate (process_ipv4_packet / process_ipv6_packet with the bundled
+                // database as matcher: flow table, parsers, create_observable_package), each on a fresh flow table
+                let db = DEFAULT_DB.get_or_init(|| huginn_net_db::Database::load_default().expect("bundled database"));
+                let matcher = huginn_net_http::SignatureMatcher::new(db);
+                let res: Vec<Value> = arr(&v["conns"])
+                    .iter()
+                    .map(|c| {
+                        let mut flows: TtlCache<FlowKey, TcpFlow> = TtlCache::new(16);
+                        let procs = HttpProcessors::new();
+                        let rows: Vec<Value> = arr(c)
+                            .iter()
+                            .map(|f| {
+                                let frame = blob(f);
+                                match guarded(|| {
+                                    use huginn_net_http::packet_parser::{parse_packet, IpPacket};
+                                    let r = match parse_packet(&frame) {
+                                        IpPacket::Ipv4(p) => huginn_net_http::process_ipv4_packet(&p, &mut flows, &procs, Some(&matcher)),
+                                        IpPacket::Ipv6(p) => huginn_net_http::process_ipv6_packet(&p, &mut flows, &procs, Some(&matcher)),
+                                        IpPacket::None => return json!({"r": "noip"}),
+                                    };
+                                    match r {
+                                        Ok(a) => json!({"r": "ok",
+                                            "req": a.http_request.as_ref().map(|x| json!({"v": req_to(&x.sig), "line": x.to_string(), "src": format!("{}|{}", x.source.ip, x.source.port), "dst": format!("{}|{}", x.destination.ip, x.destination.port)})),
+                                            "resp": a.http_response.as_ref().map(|x| json!({"v": resp_to(&x.sig), "line": x.to_string(), "src": format!("{}|{}", x.source.ip, x.source.port), "dst": format!("{}|{}", x.destination.ip, x.destination.port)}))}),
+                                        Err(e) => json!({"r": "err", "e": e.to_string()}),
+                                    }
+                                }) {
+                                    Ok(x) => x,
+                                    Err(p) => json!({"r": "panic", "e": p}),
+                                }
+                            })
+                            .collect();
+                        json!(rows)
+                    })
+                    .collect();
+                json!({"id": id, "out": res})
+            }
             o => return Err(format!("unknown op {o}")),
         };
         writeln!(out, "{o}").map_err(|e| e.to_string())?;
